@@ -1,4 +1,5 @@
 import PhreeqcVerif.Lemmas.Thermo
+import PhreeqcVerif.Gen.SpeciationSrc
 /-!
 # C01 — speciation: property theorems
 
@@ -13,6 +14,8 @@ for all inputs, token lists of any length, any fuel.
 7.   the gate: `runModel` returns `ok` only in states where `residuals()` reports CONVERGED and `check_residuals()` is silent,
      whatever the Newton step / "try again" decisions are; what the tests mean per unknown type.
 8.   read-outs, sums.   9. concrete instances.
+10.  the constants of the C++ source (`Gen/SpeciationSrc.lean`, regenerated on every run) are the model's; named
+     expressions (`select_log_k_expression`, `add_other_logk`, `add_logks`); `calc_alk` lookup order; `under()`; valence totals.
 -/
 namespace PhreeqcVerif.C01
 open PhreeqcVerif PhreeqcVerif.Thermo PhreeqcVerif.Speciation
@@ -518,5 +521,275 @@ example : letI := ratOps f0
     | ok s => intro h; simp only [Outcome.toOption, Option.some.injEq] at h; rw [h]
     | error => intro h; cases h
   exact gate_sound f0 _ _ _ 10 2 0 3 h
+
+/-! ### 10. source constants, named expressions, alkalinity lookup, valence totals -/
+
+open Gen.SpeciationSrc in
+/-- the constants the models use are the ones in the C++ source (read by `tools/gen_speciation.py` on every run) -/
+theorem source_constants :
+    recognised = true ∧ SELECT_SHAPE = true ∧ R_KJ_DEG_MOL = Thermo.rKJ ∧ KCALC_TREF = Thermo.tRef ∧
+    REF_PRES_PASCAL = Thermo.pRef ∧ PASCAL_PER_ATM = Thermo.pRef ∧ COMBINE_TOL = Speciation.combineTol ∧
+    UNDER_MIN = -40 ∧ MAX_LM = 3 ∧ MAX_M = 1000 ∧ LN_ALPHA_SIXTH = false ∧ LN_ALPHA_DIV = 1000 ∧
+    CONV_TOL = 1 / 100000000 ∧ MIN_TOTAL = 1 / 10000000000000000000000000 ∧ KCALC_VFACTOR = 1 / 1000000000 ∧
+    JOULES_PER_CALORIE = 4184 / 1000 ∧ DH_KILO = 1000 ∧ MAX_ADD_EQUATIONS = 20 := by
+  decide +kernel
+
+open Gen.SpeciationSrc in
+/-- `kCalc` is the formula of `k_calc` written with the constants of the source -/
+theorem kCalc_source (f : TransFns Rat) (p : LogK Rat) (T P : Rat) :
+    letI := ratOps f
+    kCalc p T P =
+      (let lk := p.k0 - p.dh * (KCALC_TREF - T) / (f.ln 10 * (T * R_KJ_DEG_MOL) * KCALC_TREF) + p.a1 + p.a2 * T
+          + p.a3 / T + p.a4 * f.log10 T + p.a5 / (T * T) + p.a6 * T * T
+       if 0 < P - REF_PRES_PASCAL then lk - p.dv * KCALC_VFACTOR * (P - REF_PRES_PASCAL) / (f.ln 10 * (T * R_KJ_DEG_MOL))
+       else lk) := by
+  have h1 : R_KJ_DEG_MOL = rKJ := by decide +kernel
+  have h2 : KCALC_TREF = tRef := by decide +kernel
+  have h3 : REF_PRES_PASCAL = pRef := by decide +kernel
+  have h4 : KCALC_VFACTOR = 1 / 1000000000 := by decide +kernel
+  simp only [kCalc, NumOps.lit, NumOps.ofRat, NumOps.log10, NumOps.ln, id, h1, h2, h3, h4]
+  rfl
+
+open Gen.SpeciationSrc in
+theorem dhToKJ_source (f : TransFns Rat) (x : Rat) :
+    letI := ratOps f
+    dhToKJ .kcal x = x * JOULES_PER_CALORIE ∧ dhToKJ .J x = x / DH_KILO ∧
+      dhToKJ .cal x = x / DH_KILO * JOULES_PER_CALORIE ∧ dhToKJ .kJ x = x := by
+  have h1 : JOULES_PER_CALORIE = 4184 / 1000 := by decide +kernel
+  have h2 : DH_KILO = 1000 := by decide +kernel
+  refine ⟨?_, ?_, ?_, ?_⟩ <;> simp only [dhToKJ, NumOps.lit, NumOps.ofRat, id, h1, h2]
+
+/-! alkalinity lookup -/
+
+theorem alk_lookup_order : Gen.SpeciationSrc.ALK_SECONDARY_FIRST = true := by decide
+
+theorem lastLine_spec (w : Bool) (n : String) (ms : List (MasterLine Rat)) (m : MasterLine Rat) :
+    lastLine w n ms = some m → m ∈ ms ∧ m.primary = w ∧ m.species = n ∧ m.elt ≠ "Alkalinity" := by
+  induction ms with
+  | nil => intro h; simp [lastLine] at h
+  | cons x t ih =>
+    intro h
+    unfold lastLine at h
+    cases hr : lastLine w n t with
+    | some r =>
+      simp only [hr, Option.some.injEq] at h
+      subst h
+      obtain ⟨a, b⟩ := ih hr
+      exact ⟨List.mem_cons_of_mem _ a, b⟩
+    | none =>
+      simp only [hr] at h
+      split at h
+      · rename_i hc
+        cases h
+        simp only [Bool.and_eq_true, beq_iff_eq, Bool.not_eq_true', beq_eq_false_iff_ne] at hc
+        exact ⟨List.mem_cons_self, hc.1.1, hc.1.2, hc.2⟩
+      · cases h
+
+/-- the valence line of a species takes precedence over its element line (`calc_alk` looks at `s->secondary` first) -/
+theorem masterAlk_valence_precedence (n : String) (ms : List (MasterLine Rat)) (m : MasterLine Rat) :
+    lastLine false n ms = some m → masterAlk true ms n = some m.alk := by
+  intro h; simp [masterAlk, h]
+
+theorem masterAlk_element_line (n : String) (ms : List (MasterLine Rat)) :
+    lastLine false n ms = none → masterAlk true ms n = (lastLine true n ms).map (·.alk) := by
+  intro h; simp [masterAlk, h]
+
+/-- minteq.dat: `Fe Fe+3 0`, `Fe(+2) Fe+2 0`, `Fe(+3) Fe+3 -2`. The right order gives Fe+3 the alkalinity −2 and
+Fe(OH)2+ alkalinity 0; looking at the element line first gives 0 and 2 -/
+example : letI := ratOps (⟨id, id, id, id, id, id, id, id, id, id⟩ : TransFns Rat)
+    let ms : List (MasterLine Rat) := [⟨"Fe", "Fe+3", 0, true⟩, ⟨"Fe(+2)", "Fe+2", 0, false⟩, ⟨"Fe(+3)", "Fe+3", -2, false⟩,
+      ⟨"H", "H+", -1, true⟩, ⟨"H(1)", "H+", -1, false⟩, ⟨"O", "H2O", 0, true⟩, ⟨"Alkalinity", "CO3-2", 1, true⟩]
+    let feoh2 : Eqn Rat := ⟨"Fe(OH)2+", [("Fe+3", 1), ("H2O", 2), ("H+", -2)], ⟨-567 / 100, 0, 0, 0, 0, 0, 0, 0, 0⟩⟩
+    masterAlk true ms "Fe+3" = some (-2) ∧ masterAlk false ms "Fe+3" = some 0 ∧
+    masterAlk true ms "H2O" = some 0 ∧ masterAlk true ms "CO3-2" = none ∧
+    speciesAlk (fun n => (masterAlk true ms n).getD 0) feoh2 = 0 ∧
+    speciesAlk (fun n => (masterAlk false ms n).getD 0) feoh2 = 2 := by
+  decide +kernel
+
+/-! `under()` -/
+
+theorem underMoles_zero (f : TransFns Rat) (lm W : Rat) : letI := ratOps f; lm < -40 → underMoles lm W = 0 := by
+  intro h
+  simp only [underMoles, NumOps.lit, NumOps.ofRat, NumOps.exp10, id]
+  grind
+
+theorem underMoles_mid (f : TransFns Rat) (lm W : Rat) :
+    letI := ratOps f; -40 ≤ lm → lm ≤ 3 → underMoles lm W = f.exp10 lm * W := by
+  intro h1 h2
+  simp only [underMoles, NumOps.lit, NumOps.ofRat, NumOps.exp10, id]
+  grind
+
+theorem underMoles_cap (f : TransFns Rat) (lm W : Rat) : letI := ratOps f; 3 < lm → underMoles lm W = 1000 * W := by
+  intro h
+  simp only [underMoles, NumOps.lit, NumOps.ofRat, NumOps.exp10, id]
+  grind
+
+/-! named expressions: `select_log_k_expression`, `add_other_logk`, `add_logks` -/
+
+theorem nz_iff (f : TransFns Rat) (x : Rat) : letI := ratOps f; nz x = true ↔ x ≠ 0 := by
+  simp only [nz, NumOps.lit, NumOps.ofRat, id]
+  grind
+
+/-- `analytic` looks at the six analytic entries only -/
+theorem analytic_congr (f : TransFns Rat) (p q : LogK Rat) (h1 : p.a1 = q.a1) (h2 : p.a2 = q.a2) (h3 : p.a3 = q.a3)
+    (h4 : p.a4 = q.a4) (h5 : p.a5 = q.a5) (h6 : p.a6 = q.a6) :
+    letI := ratOps f; p.analytic = q.analytic := by
+  simp only [LogK.analytic, h1, h2, h3, h4, h5, h6]
+
+theorem analytic_zero (f : TransFns Rat) (k0 dh dv : Rat) :
+    letI := ratOps f; (⟨k0, dh, 0, 0, 0, 0, 0, 0, dv⟩ : LogK Rat).analytic = false := by
+  simp only [LogK.analytic, nz, NumOps.lit, NumOps.ofRat, id]
+  grind
+
+theorem selectExpr_analytic (f : TransFns Rat) (p : LogK Rat) :
+    letI := ratOps f; p.analytic = true → selectExpr p = ⟨0, 0, p.a1, p.a2, p.a3, p.a4, p.a5, p.a6, p.dv⟩ := by
+  intro h
+  simp only [selectExpr, h, if_true, NumOps.lit, NumOps.ofRat, id]
+
+theorem selectExpr_plain (f : TransFns Rat) (p : LogK Rat) :
+    letI := ratOps f; p.analytic = false → selectExpr p = ⟨p.k0, p.dh, 0, 0, 0, 0, 0, 0, p.dv⟩ := by
+  intro h
+  simp only [selectExpr, h, Bool.false_eq_true, if_false, NumOps.lit, NumOps.ofRat, id]
+
+theorem selectExpr_idem (f : TransFns Rat) (p : LogK Rat) :
+    letI := ratOps f; selectExpr (selectExpr p) = selectExpr p := by
+  cases h : @LogK.analytic Rat (ratOps f) _ p with
+  | true =>
+    rw [selectExpr_analytic f p h]
+    exact selectExpr_analytic f _ ((analytic_congr f _ p rfl rfl rfl rfl rfl rfl).trans h)
+  | false =>
+    rw [selectExpr_plain f p h]
+    exact selectExpr_plain f _ (analytic_zero f _ _ _)
+
+/-- an analytic expression switches `log_k` and `delta_h` off -/
+theorem kCalc_selectExpr_analytic (f : TransFns Rat) (p : LogK Rat) (T P : Rat) :
+    letI := ratOps f
+    p.analytic = true → kCalc (selectExpr p) T P = kCalc ⟨0, 0, p.a1, p.a2, p.a3, p.a4, p.a5, p.a6, p.dv⟩ T P := by
+  intro h; rw [selectExpr_analytic f p h]
+
+theorem kCalc_selectExpr_plain (f : TransFns Rat) (p : LogK Rat) (T P : Rat) :
+    letI := ratOps f
+    p.analytic = false → kCalc (selectExpr p) T P = kCalc ⟨p.k0, p.dh, 0, 0, 0, 0, 0, 0, p.dv⟩ T P := by
+  intro h; rw [selectExpr_plain f p h]
+
+/-- `add_other_logk`: a named expression contributes `c` times the value of its SELECTED expression (any sign of `c`) -/
+theorem kCalc_addOther (f : TransFns Rat) (src nm : LogK Rat) (c T P : Rat) :
+    letI := ratOps f
+    kCalc (addOther src nm c) T P = kCalc src T P + c * kCalc (selectExpr nm) T P := by
+  cases h : @LogK.analytic Rat (ratOps f) _ nm with
+  | true =>
+    rw [selectExpr_analytic f nm h]
+    simp only [addOther, h, if_true, kCalc, NumOps.lit, NumOps.ofRat, NumOps.log10, NumOps.ln, id]
+    grind
+  | false =>
+    rw [selectExpr_plain f nm h]
+    simp only [addOther, h, Bool.false_eq_true, if_false, kCalc, NumOps.lit, NumOps.ofRat, NumOps.log10, NumOps.ln, id]
+    grind
+
+theorem kCalc_addOther_zero (f : TransFns Rat) (src nm : LogK Rat) (T P : Rat) :
+    letI := ratOps f
+    kCalc (addOther src nm 0) T P = kCalc src T P := by
+  rw [kCalc_addOther]; grind
+
+theorem kCalc_foldl_addOther (f : TransFns Rat) (adds : List (LogK Rat × Rat)) (acc : LogK Rat) (T P : Rat) :
+    letI := ratOps f
+    kCalc (adds.foldl (fun acc nc => addOther acc nc.1 nc.2) acc) T P
+      = kCalc acc T P + (adds.map (fun nc => nc.2 * kCalc (selectExpr nc.1) T P)).sum := by
+  induction adds generalizing acc with
+  | nil => simp only [List.foldl_nil, List.map_nil, List.sum_nil]; grind
+  | cons x t ih =>
+    simp only [List.foldl_cons, List.map_cons, List.sum_cons, ih, kCalc_addOther]
+    grind
+
+/-- log K of a species with `-add_logk` lines: own selected expression plus `c`·(selected named expression) each -/
+theorem kCalc_combineLogK (f : TransFns Rat) (own : LogK Rat) (adds : List (LogK Rat × Rat)) (T P : Rat) :
+    letI := ratOps f
+    kCalc (combineLogK own adds) T P
+      = kCalc (selectExpr own) T P + (adds.map (fun nc => nc.2 * kCalc (selectExpr nc.1) T P)).sum :=
+  kCalc_foldl_addOther f adds _ T P
+
+theorem kCalc_foldl_addScaled (f : TransFns Rat) (adds : List (LogK Rat × Rat)) (acc : LogK Rat) (T P : Rat) :
+    letI := ratOps f
+    kCalc (adds.foldl (fun acc nc => acc.addScaled nc.2 nc.1) acc) T P
+      = kCalc acc T P + (adds.map (fun nc => nc.2 * kCalc nc.1 T P)).sum := by
+  induction adds generalizing acc with
+  | nil => simp only [List.foldl_nil, List.map_nil, List.sum_nil]; grind
+  | cons x t ih =>
+    simp only [List.foldl_cons, List.map_cons, List.sum_cons, ih, kCalc_addScaled]
+    grind
+
+/-- `add_logks` (named expression referring to named expressions): ALL entries are added -/
+theorem kCalc_combineNamed (f : TransFns Rat) (own : LogK Rat) (adds : List (LogK Rat × Rat)) (T P : Rat) :
+    letI := ratOps f
+    kCalc (combineNamed own adds) T P
+      = kCalc (selectExpr own) T P + (adds.map (fun nc => nc.2 * kCalc nc.1 T P)).sum :=
+  kCalc_foldl_addScaled f adds _ T P
+
+/-- non-vacuity: a plain own expression, one analytic and one plain named expression (negative coefficient); the analytic
+one contributes nothing of its `log_k` -/
+example : letI := ratOps (⟨id, id, id, id, id, id, id, id, id, id⟩ : TransFns Rat)
+    let own : LogK Rat := ⟨2, -3, 0, 0, 0, 0, 0, 0, 0⟩
+    let n1 : LogK Rat := ⟨100, 50, 1, 1 / 100, 0, 0, 0, 0, 0⟩
+    let n2 : LogK Rat := ⟨5, 7, 0, 0, 0, 0, 0, 0, 0⟩
+    let r := combineLogK own [(n1, 2), (n2, -1)]
+    n1.analytic = true ∧ n2.analytic = false ∧
+    r.k0 = 2 - 5 ∧ r.dh = -3 - 7 ∧ r.a1 = 2 ∧ r.a2 = 2 / 100 ∧
+    kCalc r tRef pRef = -3 + 2 + 2 / 100 * tRef ∧
+    (combineNamed own [(n1, 2), (n2, -1)]).k0 = 2 + 200 - 5 := by
+  decide +kernel
+
+/-! valence totals of `sum_species` -/
+
+theorem valenceTotal_append (f : TransFns Rat) (m : String) (atoms : Rat) (sec : String → List (String × Rat))
+    (a b : List (SpRec Rat)) :
+    letI := ratOps f; valenceTotal m atoms sec (a ++ b) = valenceTotal m atoms sec a + valenceTotal m atoms sec b :=
+  sumBy_append f _ a b
+
+theorem sum_map_mul_add (f : TransFns Rat) {β : Type} (ms : List β) (a b : β → Rat) (c : Rat) :
+    letI := ratOps f
+    (ms.map (fun m => a m * c + b m)).sum = (ms.map a).sum * c + (ms.map b).sum := by
+  induction ms with
+  | nil => simp only [List.map_nil, List.sum_nil]; grind
+  | cons x t ih => simp only [List.map_cons, List.sum_cons, ih]; grind
+
+theorem sum_map_zero (f : TransFns Rat) {β : Type} (ms : List β) :
+    letI := ratOps f
+    (ms.map (fun _ => (0 : Rat))).sum = 0 := by
+  induction ms with
+  | nil => simp only [List.map_nil, List.sum_nil]
+  | cons x t ih => simp only [List.map_cons, List.sum_cons, ih]; grind
+
+/-- the totals of the valence states of an element add up to the element total, provided each species' secondary-form
+reaction carries the species' atoms of the element (`Σ_m atoms(m) · coef(m in sec s) = atoms of e in s`) -/
+theorem valence_totals_add_up (f : TransFns Rat) (ms : List (String × Rat)) (e : String)
+    (sec : String → List (String × Rat)) (sp : List (SpRec Rat)) :
+    letI := ratOps f
+    (∀ s ∈ sp, (ms.map (fun m => m.2 * coefOf m.1 (sec s.name))).sum = coefOf e s.elts) →
+      (ms.map (fun m => valenceTotal m.1 m.2 sec sp)).sum = total e sp := by
+  induction sp with
+  | nil =>
+    intro _
+    exact (sum_map_zero f ms).trans (by simp only [total, sumBy, NumOps.lit, NumOps.ofRat, id])
+  | cons s t ih =>
+    intro h
+    have h1 := h s List.mem_cons_self
+    have h2 := ih (fun s' hs' => h s' (List.mem_cons_of_mem _ hs'))
+    refine (sum_map_mul_add f ms (fun m => m.2 * @coefOf Rat (ratOps f) m.1 (sec s.name))
+      (fun m => @valenceTotal Rat (ratOps f) m.1 m.2 sec t) s.moles).trans ?_
+    rw [h1, h2]
+    simp only [total, sumBy]
+
+/-- Fe(+2)/Fe(+3): FeCl+ and Fe+2 count for Fe(+2), Fe(OH)2+ for Fe(+3); the two totals add up to total Fe -/
+example : letI := ratOps (⟨id, id, id, id, id, id, id, id, id, id⟩ : TransFns Rat)
+    let sec : String → List (String × Rat) := fun n =>
+      if n == "Fe+2" then [("Fe+2", 1)] else if n == "FeCl+" then [("Fe+2", 1), ("Cl-", 1)]
+      else if n == "Fe+3" then [("Fe+3", 1)] else if n == "Fe(OH)2+" then [("Fe+3", 1), ("H2O", 2), ("H+", -2)] else []
+    let sp : List (SpRec Rat) := [⟨"Fe+2", 2, 1 / 1000, 0, [("Fe", 1)]⟩, ⟨"FeCl+", 1, 1 / 5000, 0, [("Fe", 1), ("Cl", 1)]⟩,
+      ⟨"Fe+3", 3, 1 / 100000, -2, [("Fe", 1)]⟩, ⟨"Fe(OH)2+", 1, 3 / 100000, 0, [("Fe", 1), ("O", 2), ("H", 2)]⟩,
+      ⟨"Cl-", -1, 1 / 100, 0, [("Cl", 1)]⟩]
+    valenceTotal "Fe+2" 1 sec sp = 1 / 1000 + 1 / 5000 ∧ valenceTotal "Fe+3" 1 sec sp = 4 / 100000 ∧
+    total "Fe" sp = 1 / 1000 + 1 / 5000 + 4 / 100000 ∧
+    ([("Fe+2", (1 : Rat)), ("Fe+3", 1)].map (fun m => valenceTotal m.1 m.2 sec sp)).sum = total "Fe" sp := by
+  decide +kernel
 
 end PhreeqcVerif.C01
